@@ -57,6 +57,9 @@ func runC03(p *Program, e *Engine, r *Result, tier string) {
 	c03NoBuffering(a)
 	// (4) no len/cap of channels
 	c03NoChanLen(a, "C03.4")
+	// (6) no record is withheld in favour of a later notification of the same change (the later one would arrive after
+	// events that the kernel reported in between) - shared with C01.3
+	c01Drops(a, df, "C03.6")
 }
 
 func c03Goroutines(a *An) {
